@@ -34,6 +34,8 @@ CHECKS = {
          "seek semantics beyond either end not compared; re-entrant callbacks not driven; calls that cannot return on this tree are probed separately on a helper thread"),
  "C20": ("exploration", "the warcraft-rs binary driven on generated inputs: create->extract byte identity over versions x compressions x listfile x extract options, list/info against the library's view, and every sub-command of every format family on valid, truncated and corrupted inputs judged against the verdict of the library call it wraps (computed in-process) and against the promised output (exists, parses, equals the library writer's bytes)", "process-boundary monitor: exit status / output oracle against the library's own answer; valgrind memcheck on the raw hex-dump paths (thorough)", "§6 C20",
          "a panic exit counts as non-zero but is reported as panic-exit; names avoid listfile syntax and option-like prefixes; known upstream findings (PKWare, bomb ratio) kept out of the workload"),
+ "C10": ("fault_enumeration", "byte corruption at enumerated offsets of every protected region (file data, sector offset/CRC tables, attributes, V4 header and tables, signature) of archives carrying each kind of integrity metadata, plus paired corruptions (checksum zeroed + data flipped, attribute forged to match); verifier per kind as the statement names it; sign/verify/bit-flip sweep of the weak-signature functions", "fault enumeration (every k-th / every offset) with a detection oracle: error or invalid status, or content bit-identical", "§6 C10",
+         "a crash while reading a corrupted archive is tallied (C05's clause) but not judged here; multi-sector sector-checksum verification is a known finding (never compared)"),
  "C12": ("fault_enumeration", "every state-changing syscall of build/compact (V1-V4, dest absent/present) is killed or failed (ENOSPC, EIO) with strace inject, plus two-fault sequences and RLIMIT_FSIZE short-write sweeps; a separate process judges the destination path afterwards (old | absent | complete new archive)", "syscall-level fault injection (strace) + post-mortem file-system oracle", "§6 C12",
          "process death and I/O errors only, not power loss; faults are confirmed to have fired inside the marker window from each run's own trace"),
  "C18": ("exploration", "generated WDT/WDL definitions x versions round trip against a plain model with an independent chunk walker, all version pairs converted, and the coordinate pair enumerated for all 4096 tiles (corner, centre, range)", "reference-model monitor + independent chunk walker; exhaustive 64x64 enumeration for the coordinate clause", "§6 C18",
